@@ -50,4 +50,41 @@ def desugar (cx : EvalCtx) (env : Env) (keys : List Expr) (sets : List (List Nat
   let parts ← sets.mapM (branch cx env keys aggs rows)
   pure parts.flatten
 
+/-! ### the same desugaring as a plan rewrite (the SHAPE of the binder's output: Union ALL of Project over Aggregate) -/
+
+/-- branch plan: `SELECT <key or NULL>…, <aggregates>…, <GROUPING constant> FROM (q GROUP BY <the set's keys>)` -/
+def branchPlan (keys : List Expr) (aggs : List AggCall) (q : Query) (set : List Nat) : Query :=
+  .project []
+    (((List.range keys.length).map fun i => match posOf set i with | some j => Expr.col j | none => Expr.lit .null) ++
+     ((List.range aggs.length).map fun j => Expr.col (set.length + j)) ++
+     [Expr.lit (.int (groupingOf (List.range keys.length) set))])
+    (.agg (subKeys keys set) aggs q)
+
+def unionAll : List Query → Query
+  | [] => .values []
+  | [b] => b
+  | b :: bs => .setop .union true b (unionAll bs)
+
+mutual
+/-- every grouping-sets node replaced by the binder's desugared form -/
+def desugarPlan : Query → Query
+  | .groupingSets keys sets aggs q => let q' := desugarPlan q; unionAll (sets.map (branchPlan keys aggs q'))
+  | .scan t => .scan t
+  | .cteRef i => .cteRef i
+  | .values rows => .values rows
+  | .filter subs p q => .filter (desugarPlans subs) p (desugarPlan q)
+  | .project subs es q => .project (desugarPlans subs) es (desugarPlan q)
+  | .join jt lw rw subs on l r => .join jt lw rw (desugarPlans subs) on (desugarPlan l) (desugarPlan r)
+  | .agg keys aggs q => .agg keys aggs (desugarPlan q)
+  | .distinct q => .distinct (desugarPlan q)
+  | .sort keys q => .sort keys (desugarPlan q)
+  | .limit s f q => .limit s f (desugarPlan q)
+  | .setop op all l r => .setop op all (desugarPlan l) (desugarPlan r)
+  | .window calls q => .window calls (desugarPlan q)
+  | .withCte defs body => .withCte (desugarPlans defs) (desugarPlan body)
+def desugarPlans : List Query → List Query
+  | [] => []
+  | q :: qs => desugarPlan q :: desugarPlans qs
+end
+
 end IQE.Engine.GroupingSets
